@@ -21,7 +21,7 @@
 (***************************************************************************)
 EXTENDS H2Flow, Json, IOUtils
 
-ASSUME TLCSet(1, 0) /\ TLCSet(2, <<>>) /\ TLCSet(3, 0)
+ASSUME TLCSet(1, 0) /\ TLCSet(2, <<>>) /\ TLCSet(3, 0) /\ TLCSet(4, 0)
 
 Rec == ndJsonDeserialize(IOEnv.TRACE)
 
@@ -55,14 +55,19 @@ Unch == UNCHANGED vars
 \* an event explained only by an open deviation is counted (register 3) so that the check can report the
 \* known finding it reproduces
 CountDev(g) == (g => TLCSet(3, TLCGet(3) + 1)) /\ TRUE
+CountDev4(g) == (g => TLCSet(4, TLCGet(4) + 1)) /\ TRUE
 ByLoopBudget == ~(dead \/ Finished) /\ "LoopBudget" \in Deviations /\ burst >= BurstMin
+\* open finding ResetDropsFrameTail: once the peer reset a stream in the middle of its body, what sozu writes next may
+\* land inside the frame it had half-written - the garbage the peer then reads is the listed defect (CutMidBody is
+\* stable: nothing more is accounted on that stream)
+ByResetDrop == G_SozuGarble
 
 \* the P_C14 formulas (and T_Conforms) that are false in the current state
 Failed ==
   (IF P_C14_Windows THEN {} ELSE {"P_C14_Windows"}) \cup
   (IF P_C14_NewStreamWindow THEN {} ELSE {"P_C14_NewStreamWindow"}) \cup
-  (IF P_C14_FrameSize THEN {} ELSE {"P_C14_FrameSize"}) \cup
-  (IF P_C14_WholeFrames THEN {} ELSE {"P_C14_WholeFrames"}) \cup
+  (IF P_C14_FrameSize \/ ByResetDrop THEN {} ELSE {"P_C14_FrameSize"}) \cup
+  (IF P_C14_WholeFrames \/ ByResetDrop THEN {} ELSE {"P_C14_WholeFrames"}) \cup
   (IF P_C14_MaxStreams THEN {} ELSE {"P_C14_MaxStreams"}) \cup
   (IF P_C14_StreamIds THEN {} ELSE {"P_C14_StreamIds"}) \cup
   (IF P_C14_Hpack THEN {} ELSE {"P_C14_Hpack"}) \cup
@@ -91,6 +96,9 @@ T_Step ==
             E_PeerWindowUpdate(e.sid, e.n) /\ Note("PeerWU", G_PeerWindowUpdate(e.sid, e.n))
        [] e.ev = "PeerData" ->
             E_PeerSendData(e.sid, e.n, e.body, e.es) /\ Note("PeerData", G_PeerSendData(e.sid, e.n, e.body, e.es))
+       [] e.ev = "PeerRst" ->
+            IF e.sid \in ids THEN E_PeerRst(e.sid) /\ Note("PeerRst", G_PeerRst(e.sid))
+            ELSE Unch /\ Note("PeerRst:unknown-stream", FALSE)
        [] e.ev = "Starve" ->
             E_PeerStarve(e.sid) /\ Note("Starve", G_PeerStarve(e.sid))
        [] e.ev = "SozuSettings" ->
@@ -122,7 +130,8 @@ T_Step ==
             /\ last' = [NoFrame EXCEPT !.k = "X", !.sid = e.sid, !.len = e.n] /\ stall' = FALSE
             /\ UNCHANGED <<pend, nset, eff, connWin, strWin, ids, sst, pst, rem, up, nextOurs, lastPeer, cont, needUpd,
                            advInit, advConn, advStr, oweConn, oweStr, enl, ourSet, starved, errOwed, dead, burst, dropped>>
-            /\ Note("SozuBigFrame", e.n <= eff.maxFrame)
+            /\ Note("SozuBigFrame", e.n <= eff.maxFrame \/ ByResetDrop)
+            /\ CountDev4(ByResetDrop /\ e.n > eff.maxFrame)
        [] e.ev \in {"SozuForeign", "SozuOther"} ->                    \* judged by P_C14_WholeFrames
             \* foreign bytes inside a DATA payload / a frame header of a type HTTP/2 does not define
             /\ last' = [NoFrame EXCEPT !.k = (IF e.ev = "SozuForeign" \/ e.ty > 9 THEN "Z" ELSE "-"), !.sid = e.sid, !.len = e.n]
@@ -130,6 +139,7 @@ T_Step ==
             /\ UNCHANGED <<pend, nset, eff, connWin, strWin, ids, sst, pst, rem, up, nextOurs, lastPeer, cont, needUpd,
                            advInit, advConn, advStr, oweConn, oweStr, enl, ourSet, starved, errOwed, dead, burst, dropped>>
             /\ Note(e.ev, e.ev = "SozuForeign" \/ e.ty > 9)          \* PRIORITY / PUSH_PROMISE: sozu never sends them
+            /\ CountDev4(ByResetDrop)
        [] e.ev = "Stall" -> E_Stall /\ Note("Stall", TRUE)             \* judged by P_C14_Progress
        [] e.ev = "Idle" -> E_Idle /\ Note("Idle", G_Idle)
        [] e.ev = "Done" -> Unch /\ Note("Done", Finished)
@@ -161,6 +171,7 @@ TraceAccepted ==
      ELSE /\ PrintT(<<"TRACE-REJECTED", TLCGet(1), Len(Rec)>>)
           /\ PrintT(<<"VERDICT", ToJson(TLCGet(2))>>)
   /\ PrintT(<<"DEVIATIONS-USED", TLCGet(3)>>)
+  /\ PrintT(<<"DEVIATION-RESETDROP-USED", TLCGet(4)>>)
   /\ TRUE
 
 =============================================================================
